@@ -184,7 +184,6 @@ func (w *Watcher) handle(event fsnotify.Event) {
 		return
 	}
 
-	w.r.Cancel()
 	logrus.Debugf("running task \"%s\" for watcher \"%s\"", w.task.Name, w.name)
 
 	t := *w.task
